@@ -14,97 +14,25 @@ holds `quote h`, a tag and `quote k` — whatever else it carries — returns `(
 double quote, backslash and comma; under a `not` the tag comes back as `:not…`
 (`negated_header_condition_reads_back`).  The read-back functions, the loader and the renderer are tied to the code by the
 `factory-roundtrip` correspondence: build → read back → render → parse → load → read back, the real code against the
-composed Lean models, on documented and malformed definitions; the other tuple shapes are decided by it and by the oracle.
+composed Lean models, on documented and malformed definitions; the other shapes — `exists`, `size`, `envelope` with lists, `body` with its transform, `currentdate` with and without a relational
+match — read back exactly for non-empty lists of plain strings (`…_condition_reads_back`); values with commas or quotes are the
+known findings above.
 -/
 namespace C19
 /-- `strip('"')` of a quoted value without quotes or backslashes gives the value back -/
 theorem strip_quote_roundtrip (v : Bytes) (h1 : v.head? ≠ some 34) (h2 : v.getLast? ≠ some 34) :
-    B.stripC 34 ([34] ++ v ++ [34]) = v := by
-  cases hv0 : v with
-  | nil => simp [B.stripC, B.stripL]
-  | cons x0 xs0 =>
-  rw [← hv0]
-  have hne : v ≠ [] := by rw [hv0]; simp
-  unfold B.stripC
-  have a : B.stripL 34 ([34] ++ v ++ [34]) = v ++ [34] := by
-    cases v with
-    | nil => exact absurd rfl hne
-    | cons x xs =>
-      have : x ≠ 34 := by simpa using h1
-      simp [B.stripL, this]
-  rw [a]
-  have b : (v ++ [34]).reverse = 34 :: v.reverse := by simp
-  rw [b]
-  have c : B.stripL 34 (34 :: v.reverse) = v.reverse := by
-    cases hv : v.reverse with
-    | nil => simp at hv; exact absurd hv hne
-    | cons y ys =>
-      have hy : y ≠ 34 := by
-        intro hy
-        apply h2
-        have : v.getLast? = v.reverse.head? := by simp
-        rw [this, hv]; simp [hy]
-      simp [B.stripL, hy]
-  rw [c]; simp
+    B.stripC 34 ([34] ++ v ++ [34]) = v := ToListLemmas.strip_quote_roundtrip v h1 h2
 open ToList in
 /-- splitting at commas undoes joining with commas, for pieces that contain none -/
 theorem splitComma_joinComma (items : List Bytes) (hne : items ≠ []) (h : ∀ v ∈ items, ∀ c ∈ v, c ≠ 44) :
-    splitComma (joinComma items) = items := by
-  have piece : ∀ (v : Bytes), (∀ c ∈ v, c ≠ 44) → ∀ rest : Bytes, splitComma (v ++ 44 :: rest) = v :: splitComma rest := by
-    intro v hv rest
-    induction v with
-    | nil => simp [splitComma]
-    | cons c cs ih =>
-      have hc : (c == 44) = false := by simpa using hv c (by simp)
-      simp only [List.cons_append, splitComma, hc, Bool.false_eq_true, if_false]
-      rw [ih (fun x hx => hv x (by simp [hx]))]
-  have single : ∀ (v : Bytes), (∀ c ∈ v, c ≠ 44) → splitComma v = [v] := by
-    intro v hv
-    induction v with
-    | nil => rfl
-    | cons c cs ih =>
-      have hc : (c == 44) = false := by simpa using hv c (by simp)
-      simp only [splitComma, hc, Bool.false_eq_true, if_false]
-      rw [ih (fun x hx => hv x (by simp [hx]))]
-  induction items with
-  | nil => exact absurd rfl hne
-  | cons a rest ih =>
-    cases rest with
-    | nil => simpa [joinComma] using single a (h a (by simp))
-    | cons b r =>
-      have : joinComma (a :: b :: r) = a ++ 44 :: joinComma (b :: r) := by simp [joinComma]
-      rw [this, piece a (h a (by simp)), ih (by simp) (fun v hv => h v (by simp [hv]))]
+    splitComma (joinComma items) = items := ToListLemmas.splitComma_joinComma items hne h
 
 open ToList in
 /-- **exact read-back of lists**: non-empty, items free of commas, not starting or ending with a quote -/
 theorem list_read_back_exact (items : List Bytes) (hne : items ≠ [])
     (hc : ∀ v ∈ items, ∀ c ∈ v, c ≠ 44)
     (hq : ∀ v ∈ items, v.head? ≠ some 34 ∧ v.getLast? ≠ some 34) :
-    toList (render items) = items := by
-  unfold toList render inner
-  have h1 : (List.drop 1 ([91] ++ joinComma (items.map (fun v => [34] ++ v ++ [34])) ++ [93])).dropLast
-      = joinComma (items.map (fun v => [34] ++ v ++ [34])) := by simp
-  rw [h1, splitComma_joinComma _ (by simpa using hne)]
-  · simp only [if_true, List.map_map]
-    have : ∀ l : List Bytes, (∀ v ∈ l, v.head? ≠ some 34 ∧ v.getLast? ≠ some 34) →
-        l.map ((fun p => B.stripC 34 p) ∘ fun v => [34] ++ v ++ [34]) = l := by
-      intro l hl
-      induction l with
-      | nil => rfl
-      | cons v r ih =>
-        simp only [List.map_cons, Function.comp]
-        rw [strip_quote_roundtrip v (hl v (by simp)).1 (hl v (by simp)).2, ]
-        congr 1
-        exact ih (fun x hx => hl x (by simp [hx]))
-    exact this items hq
-  · intro v hv c hcv
-    simp only [List.mem_map] at hv
-    obtain ⟨w, hw, rfl⟩ := hv
-    simp only [List.mem_append, List.mem_singleton, List.mem_cons, List.not_mem_nil, or_false] at hcv
-    rcases hcv with (rfl | hcw) | rfl
-    · decide
-    · exact hc w hw c hcw
-    · decide
+    toList (render items) = items := ToListLemmas.list_read_back_exact items hne hc hq
 
 open ToList in
 /-- the comma condition is necessary: a value containing a comma comes back as two values (KF-C19-1) -/
@@ -138,5 +66,78 @@ example : Readback.headerTuple (.mk (sb "header")
     = .ok [.s (sb "Subject"), .s (sb ":contains"), .s (sb "offer")] :=
   header_condition_reads_back _ _ _ _ _ (sb "Subject") (sb ":contains") (sb "offer")
     (by unfold Readback.plain; decide) (by unfold Readback.plain; decide) (by simp [assocGet, Arg.key]) (by simp [assocGet, Arg.key]) (by simp [assocGet, Arg.key])
+
+/-! ## the other condition shapes -/
+
+open Readback in
+/-- **exists / notexists**: a non-empty list of names without double quote, backslash and comma reads back exactly -/
+theorem exists_condition_reads_back (name : Bytes) (args extra : List Arg) (children : List Node) (comments : List Bytes)
+    (names : List Bytes) (hne : names ≠ []) (hp : ∀ v ∈ names, plain v)
+    (a1 : assocGet args "header-names" = some (.str "header-names" (Factory.quoteList names))) :
+    existsTuple (.mk name args extra children comments) = .ok (.s (sb "exists") :: names.map RVal.s) :=
+  Readback.exists_condition_reads_back name args extra children comments names hne hp a1
+
+open Readback in
+/-- **size** -/
+theorem size_condition_reads_back (name : Bytes) (args extra : List Arg) (children : List Node) (comments : List Bytes)
+    (cmp lim : Bytes)
+    (a1 : assocGet args "comparator" = some (.str "comparator" cmp))
+    (a2 : assocGet args "limit" = some (.str "limit" lim)) :
+    sizeTuple (.mk name args extra children comments) = .ok [.s (sb "size"), .s cmp, .s lim] :=
+  Readback.size_condition_reads_back name args extra children comments cmp lim a1 a2
+
+open Readback in
+/-- **envelope** with lists -/
+theorem envelope_condition_reads_back (name : Bytes) (args extra : List Arg) (children : List Node) (comments : List Bytes)
+    (tag : Bytes) (hs ks : List Bytes) (hne1 : hs ≠ []) (hne2 : ks ≠ []) (hp1 : ∀ v ∈ hs, plain v) (hp2 : ∀ v ∈ ks, plain v)
+    (a1 : assocGet args "match-type" = some (.str "match-type" tag))
+    (a2 : assocGet args "header-list" = some (.str "header-list" (Factory.quoteList hs)))
+    (a3 : assocGet args "key-list" = some (.str "key-list" (Factory.quoteList ks))) :
+    envelopeTuple (.mk name args extra children comments) = .ok [.s (sb "envelope"), .s tag, .l hs, .l ks] :=
+  Readback.envelope_condition_reads_back name args extra children comments tag hs ks hne1 hne2 hp1 hp2 a1 a2 a3
+
+open Readback in
+/-- **body** with transform -/
+theorem body_condition_reads_back (name : Bytes) (args extra : List Arg) (children : List Node) (comments : List Bytes)
+    (bt tag : Bytes) (ks : List Bytes) (hne : ks ≠ []) (hp : ∀ v ∈ ks, plain v)
+    (a1 : assocGet args "body-transform" = some (.str "body-transform" bt))
+    (a2 : assocGet args "match-type" = some (.str "match-type" tag))
+    (a3 : assocGet args "key-list" = some (.str "key-list" (Factory.quoteList ks))) :
+    bodyTuple (.mk name args extra children comments) = .ok ([.s (sb "body"), .s bt, .s tag] ++ ks.map RVal.s) :=
+  Readback.body_condition_reads_back name args extra children comments bt tag ks hne hp a1 a2 a3
+
+open Readback in
+/-- **currentdate** without relational match -/
+theorem currentdate_condition_reads_back (name : Bytes) (args extra : List Arg) (children : List Node) (comments : List Bytes)
+    (zone tag dp : Bytes) (ks : List Bytes) (hne : ks ≠ []) (hp : ∀ v ∈ ks, plain v) (hz : plain zone) (hd : plain dp)
+    (hrel : (tag == sb ":count" || tag == sb ":value") = false)
+    (e1 : assocGet extra "zone" = some (.str "zone" (Factory.quote zone)))
+    (a2 : assocGet args "match-type" = some (.str "match-type" tag))
+    (a3 : assocGet args "date-part" = some (.str "date-part" (Factory.quote dp)))
+    (a4 : assocGet args "key-list" = some (.str "key-list" (Factory.quoteList ks))) :
+    currentdateTuple (.mk name args extra children comments) =
+      .ok ([.s (sb "currentdate"), .s (sb ":zone"), .s zone, .s tag, .s dp] ++ ks.map RVal.s) :=
+  Readback.currentdate_condition_reads_back name args extra children comments zone tag dp ks hne hp hz hd hrel e1 a2 a3 a4
+
+open Readback in
+/-- **currentdate** with relational match: the operator is read back too -/
+theorem currentdate_relational_condition_reads_back (name : Bytes) (args extra : List Arg) (children : List Node)
+    (comments : List Bytes) (zone tag op dp : Bytes) (ks : List Bytes) (hne : ks ≠ []) (hp : ∀ v ∈ ks, plain v)
+    (hz : plain zone) (hd : plain dp) (ho : plain op)
+    (hrel : (tag == sb ":count" || tag == sb ":value") = true)
+    (e1 : assocGet extra "zone" = some (.str "zone" (Factory.quote zone)))
+    (e2 : assocGet extra "match-type" = some (.str "match-type" (Factory.quote op)))
+    (a2 : assocGet args "match-type" = some (.str "match-type" tag))
+    (a3 : assocGet args "date-part" = some (.str "date-part" (Factory.quote dp)))
+    (a4 : assocGet args "key-list" = some (.str "key-list" (Factory.quoteList ks))) :
+    currentdateTuple (.mk name args extra children comments) =
+      .ok ([.s (sb "currentdate"), .s (sb ":zone"), .s zone, .s tag, .s op, .s dp] ++ ks.map RVal.s) :=
+  Readback.currentdate_relational_condition_reads_back name args extra children comments zone tag op dp ks hne hp hz hd ho
+    hrel e1 e2 a2 a3 a4
+
+/-- non-vacuity: an `exists` test holding two names -/
+example : Readback.existsTuple (.mk (sb "exists") [.str "header-names" (Factory.quoteList [sb "X-A", sb "Notes"])] [] [] []) =
+    .ok [.s (sb "exists"), .s (sb "X-A"), .s (sb "Notes")] :=
+  exists_condition_reads_back _ _ _ _ _ [sb "X-A", sb "Notes"] (by simp) (by decide) (by simp [assocGet, Arg.key])
 
 end C19
